@@ -155,7 +155,7 @@ std::map<std::string, std::string> parse_src(const std::string &txt)
 }
 std::string gen_key(Rng &r, int style)
 {
-	static const char a1[] = "AB", a2[] = "ABCDEFGHIJKLMNOPQRSTUVWXYZ", a3[] = "ABab019-_/.";
+	static const char a1[] = "AB", a2[] = "ABCDEFGHIJKLMNOPQRSTUVWXYZ", a3[] = "ABab019-_/.:";
 	const char *al = style == 0 ? a1 : style == 1 ? a2 : a3;
 	size_t an = strlen(al);
 	size_t len;
@@ -382,7 +382,7 @@ struct FilesEngine : Engine {
 			unsigned m = (unsigned)r.below(100);
 			if (m < 50) {
 				p.par["mode"] = "faithful";
-				if (r.chance(1, 6))
+				if (r.chance(1, 3))
 					p.par["tool"] = "1";
 			} else if (m < 62) {
 				p.par["mode"] = "writefault";
@@ -774,36 +774,120 @@ struct FilesEngine : Engine {
 				return v;
 			}
 		}
-		/* ---- MAP:KEY through the tool, differentially against the plain zone name ---- */
+		/* ---- MAP:KEY through the tool: several specs resolved in ONE process (the zone and map caches of
+		 * dt_io_zone are keyed by name) against one process per plain zone name ---- */
 		if (p.par.count("tool") && !src.empty()) {
-			auto it = src.begin();
-			std::advance(it, (long)(p.hash() % src.size()));
-			if (it->first.find(':') == std::string::npos) {
-				Plan t1;
-				t1.engine = p.engine;
-				t1.variant = p.variant;
-				t1.env["TZMAP_DIR"] = "/sim";
-				std::string img;
-				/* the compiled map of this very run is not visible outside the incarnation: compile again in place */
-				t1.files = p.files;
-				t1.argv = {"dconv", "--zone", "m:" + it->first, "-f", "%FT%T%Z", "2012-07-01T12:00:00", "2012-01-01T12:00:00"};
-				RunResult a = run_plan(t1, Limits(), [&]() {
-					std::vector<std::string> av = {"tzmapcc", "cc", "-o", "/sim/m.tzmcc", "/sim/m.tzmap"};
-					call_tool_main(av);
-					return call_tool_main(t1.argv);
+			std::vector<std::pair<std::string, std::string>> ent(src.begin(), src.end());
+			/* prefer a pair whose first zone name is a proper prefix of the second one's */
+			std::vector<size_t> pick;
+			size_t h = (size_t)p.hash();
+			for (size_t i = 0; i < ent.size() && pick.empty(); i++)
+				for (size_t j = 0; j < ent.size(); j++) {
+					const std::string &za = ent[(i + h) % ent.size()].second, &zb = ent[j].second;
+					if (za.size() < zb.size() && zb.compare(0, za.size(), za) == 0) {
+						pick = {(i + h) % ent.size(), j};
+						break;
+					}
+				}
+			if (pick.empty() || (h & 8))
+				pick = {h % ent.size(), (h / 7) % ent.size()};
+			pick.push_back((h / 131) % ent.size());
+			/* a second map whose name extends the first one's: same keys, zones rotated by one entry */
+			std::string src2;
+			for (size_t i = 0; i < ent.size(); i++)
+				src2 += ent[i].first + "\t" + ent[(i + 1) % ent.size()].second + "\n";
+			Plan t1;
+			t1.engine = p.engine;
+			t1.variant = p.variant;
+			t1.env["TZMAP_DIR"] = "/sim";
+			t1.files = p.files;
+			SimFile f2;
+			f2.path = "/sim/mm.tzmap";
+			f2.data = src2;
+			t1.files.push_back(f2);
+			std::vector<std::string> specs, plain;
+			for (size_t k = 0; k < pick.size(); k++) {
+				bool second = k == 2 || ((h >> (4 + k)) & 1);
+				specs.push_back((second ? "mm:" : "m:") + ent[pick[k]].first);
+				plain.push_back(second ? ent[(pick[k] + 1) % ent.size()].second : ent[pick[k]].second);
+			}
+			bool usable = true;
+			for (auto &sp : specs)
+				if (sp.size() > 200 || sp.find_first_of(" \t\n") != std::string::npos || sp[0] == '-')
+					usable = false;
+			/* dzone takes a name it cannot open for a date/time and then prints differently: installed zones only */
+			for (auto &z : plain) {
+				std::string dummy;
+				if (z.empty() || z[0] == '/' || !real_file_bytes("/usr/share/zoneinfo/" + z, dummy))
+					usable = false;
+			}
+			/* each map is compiled by its own incarnation of the compiler; the tool run only sees the images */
+			auto compile = [&](const std::string &text, std::string &image) {
+				Plan c;
+				c.engine = p.engine;
+				c.variant = p.variant;
+				SimFile sf;
+				sf.path = "/sim/x.tzmap";
+				sf.data = text;
+				c.files.push_back(sf);
+				RunResult cr = run_plan(c, Limits(), [&]() {
+					std::vector<std::string> av = {"tzmapcc", "cc", "-o", "/sim/x.tzmcc", "/sim/x.tzmap"};
+					int rc = call_tool_main(av);
+					std::string img;
+					if (rc == 0 && fs_get("/sim/x.tzmcc", img))
+						blob_append(img);
+					return rc;
 				});
+				st.add_probes(cr);
+				image = cr.blob;
+				return !cr.crashed() && cr.exit_code == 0 && !image.empty();
+			};
+			std::string img1, img2;
+			if (usable && !(compile(p.files[0].data, img1) && compile(src2, img2)))
+				usable = false;	/* the compile itself is judged by the faithful mode above */
+			if (usable) {
+				t1.files.clear();
+				SimFile i1, i2;
+				i1.path = "/sim/m.tzmcc";
+				i1.data = img1;
+				i2.path = "/sim/mm.tzmcc";
+				i2.data = img2;
+				t1.files = {i1, i2};
+				t1.argv = {"dzone"};
+				for (auto &sp : specs)
+					t1.argv.push_back(sp);
+				t1.argv.push_back("2012-07-01T12:00:00");
+				RunResult a = run_plan(t1);
 				st.add_probes(a);
-				Plan t2 = t1;
-				t2.argv[2] = it->second;
-				RunResult b = run_plan(t2);
-				st.add_probes(b);
+				auto strip = [](const std::string &o) {
+					/* drop the last column (the zone as it was spelled on the command line) */
+					std::string res;
+					for (auto &l : split_lines_keep(o)) {
+						size_t t = l.rfind('\t');
+						res += t == std::string::npos ? l : l.substr(0, t) + "\n";
+					}
+					return res;
+				};
+				std::string expect;
+				for (auto &z : plain) {
+					Plan t2;
+					t2.engine = p.engine;
+					t2.variant = p.variant;
+					t2.argv = {"dzone", z, "2012-07-01T12:00:00"};
+					RunResult b2 = run_plan(t2);
+					st.add_probes(b2);
+					expect += strip(b2.out);
+				}
 				if (collect)
 					st.named["tool_map_key_resolution"]++;
-				if (a.crashed() || a.out != b.out) {
+				if (a.crashed() || strip(a.out) != expect) {
+					std::string cmd;
+					for (auto &x : t1.argv)
+						cmd += x + " ";
 					v.ok = false;
 					v.cls = a.crashed() ? "files/memory" : "files/map-lookup";
 					v.predicate += " tool_level";
-					v.detail = "dconv --zone m:" + it->first + " prints " + cquote(a.out, 80) + " (" + a.status_str() + "), dconv --zone " + it->second + " prints " + cquote(b.out, 80);
+					v.detail = cmd + "prints " + cquote(strip(a.out), 120) + " (" + a.status_str() + "), the zones named in the source one by one print " + cquote(expect, 120);
 				}
 			}
 		}
